@@ -44,7 +44,7 @@ ASSUMPTIONS = ['nutils.element Reference.child_transforms/edge_transforms/child_
                '(>=0.2 element coordinates from the boundary) must be found, everything else may raise LocateError; located points must lie in their element within max(tol,eps)/0.5',
                'opposite(.) is only evaluated on interface topologies (structured boundaries carry opposites that point outside the domain)',
                'maxprocs=2 uses nutils.parallel fork; the located sample must satisfy the same oracle as for maxprocs=1']
-BUDGET_S = {'quick': 3000, 'thorough': 9000}
+BUDGET_S = {'quick': 7200, 'thorough': 14400}
 
 
 SEQ_COST = {'s2b': 9, 's2r': 8, 's2': 8, 's2p': 6, 's2i': 6, 'p2': 5, 'p2d': 5, 'i2': 3, 'i2m': 3, 's1r': 2, 's1': 1, 's1p': 1, 'i1': 1, 'p1e': 1}
